@@ -193,6 +193,14 @@ class C02(Plugin):
             for s in START:
                 out.append({"k": 1, "state": s, "cur": ["tag", 0, "script", [], 0], "tmp": "", "cdata": 0,
                             "text": t + ">x"})
+        # script data: every string of up to five pieces over the characters the escape/double-escape states
+        # distinguish, then a nested <script>...</script> (which state the prefix left the tokenizer in decides whether
+        # that end tag is recognised)
+        pieces = ["<", "!", "-", ">", "/", "x", "script"]
+        for ln in range(0, 6):
+            for combo in itertools.product(pieces, repeat=ln):
+                out.append({"k": 1, "state": "scriptDataState", "cur": ["tag", 0, "script", [], 0], "tmp": "", "cdata": 0,
+                            "text": "".join(combo) + "<script>a</script>b"})
         # numeric references at the boundaries of every range the standard distinguishes, decimal and hexadecimal
         for v in [0, 1, 9, 10, 13, 31, 32, 127, 128, 129, 159, 160, 0xD7FF, 0xD800, 0xDFFF, 0xE000, 0xFDD0, 0xFFFE, 0xFFFF,
                   0x10000, 99999, 100000, 999999, 1000000, 1114109, 1114111, 1114112, 9999999, 10000000, 0xFFFFF,
